@@ -4,6 +4,7 @@ INVARIANT NoM3AfterBadM2
 INVARIANT NoM5AfterBadProof
 INVARIANT HonestPairs
 INVARIANT Known
+INVARIANT OnlyExactProof
 INVARIANT SetupOnlyAuthenticated
 INVARIANT FailureReturnsNothing
 CHECK_DEADLOCK FALSE
